@@ -14,7 +14,8 @@ LETTER_SETS = ['ab', 'abc', 'abcd1', 'aбя', 'xy1!', 'бя']
 def gen_training(rng):
     letters = rng.choice(LETTER_SETS)
     ngram = rng.choice([2, 2, 3, 3, 4, 5])
-    mode = rng.choice(['mixed', 'mixed', 'len=ngram', 'single-length'])
+    mode = rng.choice(['mixed', 'mixed', 'len=ngram', 'single-length', 'at-max-length'])
+    max_length = rng.choice([21, 21, ngram + 1, ngram + 3]) if mode != 'at-max-length' else rng.choice([ngram + 1, ngram + 2, ngram + 4])
     pws = []
     n = rng.randint(3, 25)
     for _ in range(n):
@@ -22,16 +23,18 @@ def gen_training(rng):
             ln = ngram if rng.random() < 0.8 else rng.randint(1, ngram + 2)
         elif mode == 'single-length':
             ln = ngram + 1
+        elif mode == 'at-max-length':
+            ln = rng.choice([max_length, max_length, max_length - 1, max_length + 1, ngram])
         else:
             ln = rng.randint(1, ngram + 3)
         pws.append(''.join(rng.choice(letters) for _ in range(ln)))
     pws += pws[:rng.randint(0, len(pws))]
     if rng.random() < 0.3:
         pws.append('z' * (ngram + 1))          # a letter that may fall outside a small alphabet
-    return pws, ngram, mode
+    return pws, ngram, mode, max_length
 
 
-def build(pws, ngram, alphabet_size=100):
+def build(pws, ngram, alphabet_size=100, max_length=21):
     """real trainer objects after the three passes' OMEN part"""
     common.use_impl()
     from lib_trainer.omen.alphabet_generator import AlphabetGenerator
@@ -40,7 +43,7 @@ def build(pws, ngram, alphabet_size=100):
     for p in pws:
         ag.process_password(p)
     alphabet = ag.get_alphabet()
-    al = AlphabetLookup(alphabet=alphabet, ngram=ngram, max_length=21)
+    al = AlphabetLookup(alphabet=alphabet, ngram=ngram, max_length=max_length)
     for p in pws:
         al.parse(p)
     with contextlib.redirect_stdout(io.StringIO()):
@@ -67,7 +70,7 @@ def save_rules(al, alphabet, keyspace, levels_count, n_valid, rd, ngram, encodin
         return save_omen_rules_to_disk(al, keyspace, levels_count, n_valid, rd, info)
 
 
-def candidates(rng, pws, alphabet, ngram):
+def candidates(rng, pws, alphabet, ngram, max_length=21):
     out = list(dict.fromkeys(pws))
     for p in pws[:10]:
         if p:
@@ -75,7 +78,7 @@ def candidates(rng, pws, alphabet, ngram):
             out.append(p[:k] + rng.choice(alphabet + 'Q') + p[k + 1:])
             out.append(p + rng.choice(alphabet))
             out.append(p[:-1])
-    for ln in (ngram - 1, ngram, ngram + 1, 21, 22):
+    for ln in (ngram - 1, ngram, ngram + 1, 21, 22, max_length - 1, max_length, max_length + 1):
         if ln > 0:
             out.append(''.join(rng.choice(alphabet) for _ in range(ln)))
     return list(dict.fromkeys(out))
